@@ -50,11 +50,70 @@ NUMPY = {
 }
 
 
+def join_replay(spec, Op, cls):
+    """Concatenate / Stack with P pieces: every piece's gradient against the scatter of the incoming gradient (element numbers through the
+    real forward), and the forward against the NumPy namesake."""
+    P, axis, _index = ast.literal_eval(spec["args"])
+    rank = spec["rank"]
+    rng = np.random.default_rng(0)
+    tried = 0
+    for base in itertools.product((2, 1, 3), repeat=rank):
+        for ext in itertools.product((1, 2, 3), repeat=P):
+            shapes = []
+            for p in range(P):
+                d = list(base)
+                if cls == "Concatenate" and axis is not None and rank:
+                    d[axis % rank] = ext[p]
+                elif cls == "Concatenate" and axis is None and rank:
+                    d[0] = ext[p]
+                shapes.append(tuple(d))
+            xs = [rng.normal(size=s_) for s_ in shapes]
+            sizes = [int(np.prod(s_)) for s_ in shapes]
+            offs = np.concatenate([[0], np.cumsum(sizes)])
+            ids = [np.arange(offs[p], offs[p + 1], dtype=float).reshape(shapes[p]) for p in range(P)]
+            npf = np.concatenate if cls == "Concatenate" else np.stack
+            try:
+                ref_ids = npf(ids, axis=axis)
+            except Exception:
+                continue
+            tried += 1
+            try:
+                ts = [mg.tensor(x) for x in xs]
+                y = Tensor._op(Op, *ts, op_kwargs=dict(axis=axis))
+                ref = npf(xs, axis=axis)
+                if y.shape != ref.shape or not np.array_equal(y.data, ref):
+                    print(json.dumps(dict(confirmed=True, op=spec["op"], shapes=[list(s_) for s_ in shapes], axis=axis, what="forward differs from NumPy", mygrad_shape=list(y.shape), numpy_shape=list(ref.shape))))
+                    return True
+                g = rng.normal(size=y.shape)
+                y.backward(g)
+                flatg = np.zeros(int(offs[-1]))
+                np.add.at(flatg, ref_ids.astype(int).ravel(), g.ravel())
+                for p in range(P):
+                    e = flatg[offs[p]:offs[p + 1]].reshape(shapes[p])
+                    got = ts[p].grad
+                    if got is None or got.shape != e.shape or not np.allclose(got, e):
+                        print(json.dumps(dict(confirmed=True, op=spec["op"], shapes=[list(s_) for s_ in shapes], axis=axis, piece=p, expected=e.tolist(), got=None if got is None else np.asarray(got).tolist(),
+                                              how=f"mg.{cls.lower()}(pieces, axis={axis}).backward(g): piece {p}'s grad vs the slice of g it occupies")))
+                        return True
+            except Exception as e:
+                print(json.dumps(dict(confirmed=True, op=spec["op"], shapes=[list(s_) for s_ in shapes], axis=axis, raised=f"{type(e).__name__}: {e}")))
+                return True
+            if tried >= 60:
+                break
+        if tried >= 60:
+            break
+    print(json.dumps(dict(confirmed=False, tried=tried, note="no failing input among the configurations tried")))
+    return False
+
+
 def main():
     spec = json.loads(sys.argv[1])
     modname, cls = spec["op"].split(":")
     Op = getattr(importlib.import_module(modname), cls)
     rank = spec["rank"]
+    if cls in ("Concatenate", "Stack"):
+        join_replay(spec, Op, cls)
+        return
     args = ast.literal_eval(spec["args"]) if cls != "BroadcastTo" else ("$shape",)
     ones = set(spec.get("ones") or [])
     model = spec.get("model") or {}
